@@ -334,7 +334,7 @@ def power_scaling(ctx, cfg):
 
 def _nm_cfgs(tier):
     out = []
-    for kind, shapes in (("total", ["n3", "1x3", "2x2", "2x1x2"] + (["n4", "2x3"] if tier == "thorough" else [])), ("avg", ["n3", "2x2"] + (["1x4", "2x3"] if tier == "thorough" else [])), ("antenna", ["1x2x2", "2x2x1", "2x2"])):
+    for kind, shapes in (("total", ["n3", "1x3", "2x2", "2x1x2"]), ("avg", ["n3", "2x2"] + (["1x3"] if tier == "thorough" else [])), ("antenna", ["1x2x2", "2x2x1", "2x2"])):
         for i, shp in enumerate(shapes):
             for t in (list(TARGETS) if tier == "thorough" else [list(TARGETS)[(i + (kind == "avg")) % 4]]):
                 out.append(Cfg(kind, "real", shp, t))
@@ -342,7 +342,7 @@ def _nm_cfgs(tier):
     return out
 
 
-@obligation("C08.power_never_more", function=FUN_POWER, configs=_nm_cfgs, timeout_ms=60000, crosscheck=3)
+@obligation("C08.power_never_more", function=FUN_POWER, configs=_nm_cfgs, timeout_ms=20000, crosscheck=3)
 def power_never_more(ctx, cfg):
     """EVERY input, including items below the code's zero threshold (replaced by a flat signal) and mixed batches"""
     kind, dom, shp, tname = cfg
@@ -703,7 +703,7 @@ def ofdm_limits(ctx, cfg):
 
 
 # ------------------------------------------------------------------------------------------------ measure_signal_properties (the observation function)
-@obligation("C08.measure_signal_properties", function=FU + ":measure_signal_properties", configs=lambda tier: [Cfg("real", "n3"), Cfg("real", "1x3"), Cfg("complex", "n2")] + ([Cfg("real", "2x1x2")] if tier == "thorough" else []), timeout_ms=60000, crosscheck=3, max_paths=64)
+@obligation("C08.measure_signal_properties", function=FU + ":measure_signal_properties", configs=lambda tier: [Cfg("real", "n3"), Cfg("real", "1x3"), Cfg("complex", "n2")], timeout_ms=20000, crosscheck=3, max_paths=64)
 def measure_props(ctx, cfg):
     from kaira.constraints.utils import measure_signal_properties
 
